@@ -444,6 +444,18 @@ impl PacketTrait for SecretSubkey {
 }
 
 impl SecretKey {
+    /// The length of the secret key material changes with its protection, keep the packet header
+    /// in line with it (the packet compares unequal to its own re-parsed serialization otherwise).
+    fn refresh_packet_header(&mut self) -> Result<()> {
+        let len = Serialize::write_len(self).try_into()?;
+        self.packet_header = PacketHeader::from_parts(
+            self.packet_header.version(),
+            self.packet_header.tag(),
+            crate::types::PacketLength::Fixed(len),
+        )?;
+        Ok(())
+    }
+
     /// Remove the password protection of the private key material in this secret key packet.
     /// This permanently "unlocks" the secret key material.
     ///
@@ -454,6 +466,7 @@ impl SecretKey {
         if let SecretParams::Encrypted(enc) = &self.secret_params {
             let unlocked = enc.unlock(password, &self.details, Some(self.packet_header.tag()))?;
             self.secret_params = SecretParams::Plain(unlocked);
+            self.refresh_packet_header()?;
         }
 
         Ok(())
@@ -499,12 +512,25 @@ impl SecretKey {
             &self.details,
             Some(self.packet_header.tag()),
         )?);
+        self.refresh_packet_header()?;
 
         Ok(())
     }
 }
 
 impl SecretSubkey {
+    /// The length of the secret key material changes with its protection, keep the packet header
+    /// in line with it (the packet compares unequal to its own re-parsed serialization otherwise).
+    fn refresh_packet_header(&mut self) -> Result<()> {
+        let len = Serialize::write_len(self).try_into()?;
+        self.packet_header = PacketHeader::from_parts(
+            self.packet_header.version(),
+            self.packet_header.tag(),
+            crate::types::PacketLength::Fixed(len),
+        )?;
+        Ok(())
+    }
+
     /// Remove the password protection of the private key material in this secret key packet.
     /// This permanently "unlocks" the secret key material.
     ///
@@ -515,6 +541,7 @@ impl SecretSubkey {
         if let SecretParams::Encrypted(enc) = &self.secret_params {
             let unlocked = enc.unlock(password, &self.details, Some(self.packet_header.tag()))?;
             self.secret_params = SecretParams::Plain(unlocked);
+            self.refresh_packet_header()?;
         }
 
         Ok(())
@@ -558,6 +585,7 @@ impl SecretSubkey {
             &self.details,
             Some(self.packet_header.tag()),
         )?);
+        self.refresh_packet_header()?;
 
         Ok(())
     }
